@@ -63,6 +63,7 @@ type result struct {
 	EmissionBad []string          `json:"emission_bad"`
 	ClosureBad  []string          `json:"closure_bad"`
 	ClosureRefs int               `json:"closure_refs"`
+	MethodRefs  map[string]int    `json:"method_refs"`
 	Runs        map[string]runOut `json:"runs"`
 	UserDecls   []declOut         `json:"user_decls,omitempty"`
 	Elapsed     float64           `json:"elapsed"`
@@ -142,6 +143,9 @@ func runJob(j job, scratch string) (res result) {
 		res.ModelLine = c05.ModelLine(b.Decls, "fwd", "lifo")
 		res.Selected = c05.SelectedLine(b.Decls)
 		res.ClosureBad, res.ClosureRefs = b.ClosureScan()
+		mbad, mrefs := b.MethodRefScan()
+		res.ClosureBad = append(res.ClosureBad, mbad...)
+		res.MethodRefs = mrefs
 		phase("scan")
 
 		link := func(variant string) {
